@@ -10,7 +10,7 @@ def run(ctx):
         ctx.run_shards(b, "TestVerifC04", 16, 900 if ctx.tier == "quick" else 3400, "c04")
     return driver.finish(
         ctx, "fault_enumeration",
-        "five monitors. (A) wire observer: real client <-> recording relay <-> real server for carrier in {tcp, unix, ws, udp(KCP), dns, tcp+tls, unix+tls, wss, "
+        "six monitors. (A) wire observer: real client <-> recording relay <-> real server for carrier in {tcp, unix, ws, udp(KCP), dns, tcp+tls, unix+tls, wss, "
         "stdio and stdio+tls (no relay: flags only), udp+secret} x server certificate {none, good, untrusted|wronghost|expired} x client --secure x client --insecure (+ client without CA); "
         "the application payload is a random 24-byte marker repeated 400x (80x over DNS) in both directions; the capture is de-framed (websocket frames unmasked, "
         "DNS questions/answers decoded with the repository's helpers under every codec, KCP datagrams searched as they are) and searched for any 16-byte window of "
@@ -32,11 +32,23 @@ def run(ctx):
         "a standard input/output listener (which opens the upstream session by itself during start-up, its application writing from the first instant) alone, first, in the middle or last among "
         "tcp (numeric and localhost) and unix-socket listeners, or socket listeners only; applications connect after the start-up or hammer the unix sockets from before it - "
         "over tcp and websocket (thorough: + unix) through the recording relay x server certificate {none, good} x --secure x --insecure; every listener carries a logical connection with the marker "
-        "payload over the shared session; oracle = monitor A's, applied to every physical connection the relay saw. Stall rule, no deadlines. "
-        "Distinct = (monitor, carrier/transport, certificate, flags, script, peer, listener list, eager applications); non-trivial = the case produced a wire capture / reached the scripted server.",
+        "payload over the shared session; oracle = monitor A's, applied to every physical connection the relay saw. "
+        "(F) failed TLS handshakes: a scripted peer that proceeds one step at a time (write, wait for the answer, write the next step, as the real client does) makes the server's TLS handshake FAIL "
+        "in every place where a server performs one - at connection start on the tcp+tls, unix+tls, https and stdio+tls endpoints, and after the 101 of a requested StartTLS upgrade on tcp, unix and stdio "
+        "endpoints with a certificate - in 8 ways (a line of text, the plaintext announcement itself sent twice, binary junk, a handshake record with an unparsable ClientHello, a fatal alert record, a genuine "
+        "ClientHello followed after the server's flight by text, a genuine TLS client that rejects the certificate, a genuine TLS client without the client certificate the endpoint demands) and then goes on in clear: "
+        "socketace announcement, upgrade request, multiplexer, channel selection, marker payload (https: websocket upgrade request, then zero-masked frames). Oracle: the peer never completed a TLS handshake, so a TLS "
+        "endpoint must not answer the plaintext handshake with 200/101, and neither kind may produce a server.session event or let the recording target accept a connection / receive the marker; closing, an error "
+        "status, a TLS alert or silence are all accepted. The forms of one endpoint run side by side (a stdio+tls endpoint that gave up leaves its peer waiting: one stall window for all); session events of a group "
+        "that no case accounts for make the group run again case by case. Control per carrier: the same script without the failing step against a plain endpoint must reach the target (else inconclusive). "
+        "Stall rule, no deadlines. "
+        "Distinct = (monitor, carrier/transport, certificate, flags, script, peer, listener list, eager applications, place of the TLS handshake, failing step); non-trivial = the case produced a wire capture / reached the scripted server / "
+        "delivered its failing step to the endpoint.",
         ["loopback sockets and in-process pipes stand for the network",
          "interpretation (DESIGN.md): a hand-written client that ignores an offered StartTLS against the real server is outside the property",
          "a capability token that only resembles StartTLS (misspelled, hyphenated, with parameter) or sits on a second Capabilities line is not an offer",
          "KCP parity shards and the AES variant (udp+secret) are searched as they are; TLS record structure is only checked on stream carriers",
          "monitor E samples the interleavings of the client's start-up (fresh starts under the scheduler's own timing, no injected delays); it does not enumerate them",
+         "monitor F: on socket carriers the failing step and the plaintext continuation may reach the server's TLS layer in one read (then the continuation is swallowed and the peer is simply refused); "
+         "only the in-process pipes of the stdio carrier deliver them one write at a time with certainty",
          "an https endpoint without a key pair may stop accepting at any moment (its listener is garbage-collected): refused, reset and never-answered are all 'nothing completed'"])
